@@ -25,7 +25,8 @@ from typing import Any, Dict, List, Optional, Tuple
 import torch
 
 from lib.core import Ctx, run_check
-from lib.tlc import MachineryError, WORK
+from lib.tlc import MachineryError, WORK, VERIF as VERIF_ROOT
+REPO = os.environ.get("VERIF_REPO", "/repo")
 
 DT = {"f16": torch.float16, "bf16": torch.bfloat16, "f32": torch.float32, "f64": torch.float64, "i64": torch.int64}
 NAME = {v: k for k, v in DT.items()}
@@ -246,6 +247,77 @@ def validate_traces(ctx: Ctx, traces: List[Dict[str, Any]], tag: str) -> List[Tu
     return out
 
 
+def repository_test_traces(ctx: Ctx) -> None:
+    """code -> spec on the REPOSITORY'S OWN tests: the instrument tests run under lib/recorder_plugin.py (public entry
+    points wrapped, no file of /repo changed); every primary instrument's event stream is validated by DtypeTrace.tla."""
+    import subprocess
+    import sys
+    out = WORK / ctx.pid / "repo_trace.json"
+    out.parent.mkdir(parents=True, exist_ok=True)
+    env = dict(os.environ, PYTHONPATH=str(VERIF_ROOT) + ":" + REPO, PFHEDGE_VERIF_TRACE=str(out))
+    files = ["tests/instruments"] if ctx.tier == "quick" else ["tests/instruments", "tests/features", "tests/nn/modules/test_hedger.py", "tests/test_examples.py"]
+    proc = subprocess.run([sys.executable, "-m", "pytest", "-q", "-p", "no:cacheprovider", "-p", "lib.recorder_plugin", "-m", "not gpu", "-x", "-q"] + files,
+                          cwd=REPO, env=env, capture_output=True, text=True, timeout=1200)
+    if not out.exists():
+        raise MachineryError("recorder plugin produced no trace:\n" + proc.stdout[-800:] + proc.stderr[-800:])
+    data = json.loads(out.read_text())
+    by_k: Dict[int, List[Dict[str, Any]]] = {1: [], 2: [], 3: []}
+    skipped = 0
+    for st in data["dtype_streams"]:
+        names = sorted({n for e in st["events"] for n in e["post"]["bufs"]} | set(st["init"]["bufs"]))
+        sims = [e for e in st["events"] if e["op"] == "Simulate"]
+        simnames = sorted(sims[-1]["post"]["bufs"]) if sims else names
+        if not names or len(names) > 3 or (sims and names != simnames) or st["init"]["bufs"]:
+            skipped += 1
+            continue
+        m = {n: f"b{i + 1}" for i, n in enumerate(names)}
+        if any(v == "other" for e in st["events"] for v in list(e["post"]["bufs"].values()) + [e["post"]["declared"]]):
+            skipped += 1
+            continue
+
+        def post(e):
+            return {"default": e["post"]["default"], "declared": {"p1": e["post"]["declared"]},
+                    "bufs": {"p1": {m[n]: e["post"]["bufs"].get(n, "absent") for n in names}}}
+        evs = []
+        for e in st["events"]:
+            ev = {"op": e["op"], "p": "p1" if e["op"] != "SetDefault" else "-", "d": e["d"], "how": "to(dtype)", "via": "primary", "ok": e["ok"], "post": post(e)}
+            if e["op"] == "RegisterBuffer":
+                if e["how"] not in m or e["d"] == "other":
+                    evs = None
+                    break
+                ev["how"] = m[e["how"]]
+            evs.append(ev)
+        if evs is None:
+            skipped += 1
+            continue
+        by_k[len(names)].append({"init": {"default": st["init"]["default"], "declared": {"p1": st["init"]["declared"]}}, "events": evs, "test": st["test"], "cls": st["cls"]})
+    ctx.skip("repository-test streams outside the dtype machine's vocabulary (extra buffer names, non-float registrations)", skipped)
+    import re
+    total = 0
+    for k, traces in by_k.items():
+        if not traces:
+            continue
+        path = WORK / ctx.pid / f"repo_traces_k{k}.json"
+        path.write_text(json.dumps([{"init": t["init"], "events": t["events"]} for t in traces]))
+        res = ctx.tlc("MC_DtypeTrace", f"MC_DtypeTrace_k{k}.cfg", workers=1, coverage=False, env={"TRACE_FILE": str(path)})
+        verdicts = [(int(a), int(b), int(c)) for a, b, c in re.findall(r'<<"TRACE", (\d+), (\d+), (\d+)>>', res.stdout)]
+        if len(verdicts) != len(traces):
+            raise MachineryError("DtypeTrace verdict count mismatch on repository-test traces")
+        for i, reached, need in verdicts:
+            total += 1
+            ctx.traces_validated += 1
+            if reached != need:
+                t = traces[i - 1]
+                ev = t["events"][reached - 1]
+                ctx.violation(f"dtype:repo-test-trace:{ev['op']}", f"trace recorded from the repository's own test {t['test']} ({t['cls']}) is not explained by the dtype machine at event #{reached}",
+                              {"init": t["init"], "events": t["events"][:reached]})
+    ctx.sections["repository_test_streams_validated"] = total
+    if total < 20:
+        raise MachineryError(f"only {total} repository-test streams were recorded")
+    if by_k[1]:
+        ctx.sample({"repository_test_stream": {k: by_k[1][0][k] for k in ("test", "cls", "init")}, "events": by_k[1][0]["events"][:3]})
+
+
 def check(ctx: Ctx) -> None:
     warnings.filterwarnings("ignore")
     saved = torch.get_default_dtype()
@@ -283,6 +355,7 @@ def check(ctx: Ctx) -> None:
                 ctx.violation(f"dtype:trace:{ev['op'] if ev else '?'}", f"recorded trace not explained by the dtype machine at line {reached}",
                               {"init": t["init"], "prefix": [[e["op"], e["p"], e["d"], e["how"], e["via"]] for e in t["events"][:reached]], "line": ev})
         ctx.sample({"recorded_trace": {"init": traces[0]["init"], "events": traces[0]["events"][:3]}})
+        repository_test_traces(ctx)
         # binding demonstration on behaviours generated by the specification itself (independent of /repo):
         # corrupt one logged field / drop one event -> rejected at exactly that line; untouched ones accepted
         good = [{"init": r["init"], "events": json.loads(json.dumps(r["hist"]))} for r in sim.records[:200] if len(r["hist"]) >= 7][:8]
